@@ -62,8 +62,35 @@ func switchCases(fn *ssa.Function, paramIdx int) []string {
 		}
 		seen[f] = true
 		p := f.Params[idx]
+		// the operator, or the operator after a canonicalising step (`if op == "=" { op = "==" }`): variables that
+		// hold the parameter or a string literal on every way
+		family := map[ssa.Value]bool{p: true}
+		for changed := true; changed; {
+			changed = false
+			allInstrs(f, func(in ssa.Instruction) {
+				ph, ok := in.(*ssa.Phi)
+				if !ok || family[ph] || !isStringType(ph.Type()) {
+					return
+				}
+				all, some := true, false
+				for _, e := range ph.Edges {
+					if k, isK := e.(*ssa.Const); isK && k.Value != nil && k.Value.Kind() == constant.String {
+						continue
+					}
+					if family[e] {
+						some = true
+						continue
+					}
+					all = false
+				}
+				if all && some {
+					family[ph] = true
+					changed = true
+				}
+			})
+		}
 		allInstrs(f, func(in ssa.Instruction) {
-			if bo, ok := in.(*ssa.BinOp); ok && bo.Op == token.EQL && bo.X == ssa.Value(p) {
+			if bo, ok := in.(*ssa.BinOp); ok && bo.Op == token.EQL && family[bo.X] {
 				if k, ok := bo.Y.(*ssa.Const); ok && k.Value != nil && k.Value.Kind() == constant.String {
 					set[constant.StringVal(k.Value)] = true
 				}
@@ -205,6 +232,17 @@ func runC12(a *A) {
 						return ""
 					},
 					Assume: func(t *Term, v ssa.Value) Tri {
+						// the operator after a canonicalising step: on the path the variable stands for the
+						// parameter (the case under test) or for the literal it was replaced by
+						if t != nil && t.Kind == "bin" && t.Name == "==" && len(t.Args) == 2 && t.Args[1].Kind == "const" && t.Args[1].Const != nil && t.Args[1].Const.Kind() == constant.String {
+							rhs := constant.StringVal(t.Args[1].Const)
+							switch l := t.Args[0]; {
+							case l.Kind == "param" && l.Idx == 1:
+								return tri(rhs == opc)
+							case l.Kind == "const" && l.Const != nil && l.Const.Kind() == constant.String:
+								return tri(rhs == constant.StringVal(l.Const))
+							}
+						}
 						if bo, ok := v.(*ssa.BinOp); ok && bo.Op == token.EQL && isStringType(bo.X.Type()) {
 							if _, isParam := bo.X.(*ssa.Parameter); isParam {
 								if k, ok := bo.Y.(*ssa.Const); ok && k.Value != nil && k.Value.Kind() == constant.String {
